@@ -4,7 +4,7 @@
    the answers of the operating system (file size, mmap granted or refused, page size, ioctl accepted
    or refused) as universally quantified inputs; that the kernel's MAP_SHARED mapping of (file,
    offset, size) is coherent with the file is OS behaviour: tested by the harness, not proved. *)
-From VM Require Import Prelude.MachInt Prelude.Outcome Impl.MmapBuild Impl.Xen Spec.C15 Suite.C15 Proofs.C15 Proofs.C15ModelOk.
+From VM Require Import Prelude.MachInt Prelude.Outcome Impl.MmapBuild Impl.Xen Spec.C15 Suite.C15 Proofs.C15 Proofs.C15ModelOk Proofs.C15XenOk.
 
 (* the implementation model satisfies the executable spec checker on EVERY well-formed request of the
    standard build: any constructor kind, size, prot, flags, file length and offset, pointer, guest
@@ -19,6 +19,31 @@ Theorem C15_model_ok : forall c probe k,
    (probe = 2 /\ (c_raw c <> None \/ (explicit_flags c = true /\ hasbit (c_flags c) 16 = true)))) ->
   ok_C15 c (run_C15 c probe) = true.
 Proof. exact C15_model_ok_lemma. Qed.
+
+(* the Xen implementation model satisfies the executable checker ok_C15x on EVERY well-formed request:
+   any flag word, size, file / offset, prot, flags, guest address and base, page size, either answer of
+   the kernel to the mmap (probe) and of the hypervisor interface to the ioctls.  Well-formed: for
+   foreign/grant types fewer than 2^32 pages (the ioctl count is a u32); probe = 2 ("not probed")
+   exactly where the harness does not probe (MAP_FIXED, refused flag word, on-demand grant, foreign/
+   grant without a file at offset 0); the kernel refuses an empty mmap.  The one excluded class is the
+   candidate finding of suite C15xenfind (grant mapped in advance, map ioctl accepted, mmap refused:
+   the grant mapping stays in the device, C15_xen_grant_leak_witness). *)
+Theorem C15x_model_ok : forall c probe,
+  (0 < cx_page c /\ cx_mflags c < 2 ^ 32 /\
+   ((cx_mflags c = 1 \/ cx_mflags c = 2) ->
+      cx_size c + cx_page c < W64 /\ cx_size c + cx_page c <= 4294967296 * cx_page c) /\
+   (probe = 0 \/ probe = 1 \/ probe = 2) /\
+   (cx_mflags c = 10 -> probe = 2) /\
+   (probe = 2 -> match cx_flags c with Some f => hasbit f 16 | None => false end = true \/
+                 xen_type_ok (cx_mflags c) = false \/ cx_mflags c = 10 \/
+                 ((cx_mflags c = 1 \/ cx_mflags c = 2) /\
+                  match cx_file c with Some (_, 0) => False | _ => True end)) /\
+   (cx_size c = 0 -> (cx_mflags c = 1 \/ cx_mflags c = 2) -> probe <> 1)) ->
+  ~ (cx_mflags c = 2 /\ probe = 0 /\ cx_ioctl c = true /\ 0 < cx_size c /\
+     match cx_flags c with Some f => hasbit f 16 | None => false end = false /\
+     match cx_file c with Some (_, 0) => True | _ => False end) ->
+  ok_C15x c (run_C15x c probe) = true.
+Proof. exact C15x_model_ok_lemma. Qed.
 
 (* build_ok_iff: MmapRegionBuilder::build accepts EXACTLY the safe requests (and then returns the
    requested region): an external pointer iff it is page aligned; otherwise iff MAP_FIXED (bit 4) is
@@ -143,6 +168,7 @@ Example C15_nonvacuous :
 Proof. vm_compute. repeat split; repeat eexists. Qed.
 
 Print Assumptions C15_model_ok.
+Print Assumptions C15x_model_ok.
 Print Assumptions C15_build_ok_iff.
 Print Assumptions C15_reports_request.
 Print Assumptions C15_fail_maps_nothing.
